@@ -16,7 +16,8 @@ EXPLANATION = ("R06.1 open-flag table of the log-file open: write, create, appen
                "with its own infix predicate. R06.8 the listing that start index, restart numbers and the latest file are taken from recognises exactly the family (shared with R14.2). R06.2 also: the number is cut behind the LAST `_r` of the stem; R06.3 also: at start the current file is looked for under rCURRENT (Timestamps) resp. the CONFIGURED current infix (TimestampsCustomFormat)."
                " R06.3 also: every helper that names or parses a file at start is given the InfixFormat stored in the naming state. R06.1 also: the path handed back by open_log_file (stored in the active state) is the very path that was opened. R06.9 (shared with R07.2): the original of a compressed file is removed only after its .gz was completely written in the same step, and the encoder's sink cannot swallow a failing write."
                " R06.10 append wiring: append()/o_append() on Logger and FileLogWriterBuilder reach config.append unchanged (setter tables, Logger mirrors the builder, try_build_state copies the field) (shared configuration-wiring tables, rules/cfgwiring.py)."
-               " R06.11 (shared with R16.7): on every row of the builder create_dir_all(spec directory) succeeded and is_dir held before State::new - the error-tolerant start-up listing therefore sees what earlier runs left.")
+               " R06.11 (shared with R16.7): on every row of the builder create_dir_all(spec directory) succeeded and is_dir held before State::new - the error-tolerant start-up listing therefore sees what earlier runs left."
+               " R06.8 also: the InfixFilter tables per variant (shared with R14.2) - a narrower or wider predicate changes which earlier files a restart recognises.")
 ASSUMPTIONS = ["OpenOptions flag semantics (std)", "lexicographic maximum of the .restart siblings is the highest number (4 digits)"]
 NOT_DECIDED = ["preservation of contents over arbitrary run sequences and directory states", "same-second behaviour beyond the collision test", "cleanup interplay (C07)"]
 FLOORS = {'R06.1': 1, 'R06.3': 6, 'R06.4': 8, 'R06.5': 2}
@@ -48,6 +49,10 @@ def run(R, ctx):
     c01.index_table(_As(R, 'R06.6'), ctx)
     c01.order_rules(_As(R, 'R06.6'), ctx)
     listing_predicates(R, ctx)
+    # every start-up listing (highest number, latest timestamp, collision test) stands on the infix predicates: their tables per variant are part of what
+    # a restart sees of the earlier runs (tables shared with R14.2)
+    import c14 as _c14i
+    _c14i.infix_tables(Relabel(R, {'R14.2': 'R06.8'}), ctx)
     # every start decides from a LISTING of the log directory what earlier runs left behind; the listing tolerates read_dir errors (empty result), so the
     # directory must have been created and verified before the state is built - on every row of the builder (shared with R16.7)
     R.rule('R06.11', 'the log directory is created and verified before any state is built: the start-up listing can see the earlier runs (shared with R16.7)')
